@@ -316,7 +316,7 @@ prop("C08", "exploration",
 prop("C18", "fault_enumeration",
      "cases = injected faults that were reached: for each configuration ({LT, ET} x {reactor, reuseport} x {tcp, unix}; quick: three of the six, rotating with the seed) and each fault of the list "
      "{read: ECONNRESET, ETIMEDOUT; write: EPIPE, ECONNRESET, ETIMEDOUT; writev: EPIPE, ECONNRESET; epoll_ctl MOD: ENOMEM, ENOENT; epoll_ctl DEL: ENOENT, ENOMEM; close: EINTR, EIO; epoll_ctl ADD of a "
-     "connection being registered: ENOMEM, ENOSPC; retryable: read/write EAGAIN (LT only), epoll_wait EINTR, accept4 EINTR/ECONNABORTED/ECONNRESET} x call index k = 1..K (K=2 quick, 6 thorough), "
+     "connection being registered: ENOMEM, ENOSPC; recvfrom / sendto of a UDP listener: ECONNREFUSED, ENOBUFS (k <= 3, oracle: every sender is still served afterwards); retryable: read/write EAGAIN (LT only), epoll_wait EINTR, accept4 EINTR/ECONNABORTED/ECONNRESET} x call index k = 1..K (K=2 quick, 6 thorough), "
      "plus pairs (write EPIPE or read ECONNRESET followed by a failing epoll_ctl DEL or close during the tear-down of the same descriptor), one fresh engine with 6 echo connections whose peers verify "
      "the echoed stream byte by byte (2 of them bulk senders that create back-pressure). The shim returns the errno at the k-th matching call and records the descriptor it hit (= the victim). Oracle: "
      "victim closed with exactly one OnClose carrying a non-nil error (none if it never opened), its descriptor released exactly once (ledger), every other connection keeps verified echo progress, "
@@ -328,7 +328,7 @@ prop("C18", "fault_enumeration",
      ],
      "System-call fault enumeration through the overlay-injected shim: every I/O-path call site of the current tree is reachable by (call class, index); each injected fault is judged by the "
      "lifecycle monitor, the peers' stream oracle, the descriptor ledger and a liveness probe.",
-     "errno sets follow the statement (other accept4 errors shut the engine down by design and are exercised under C06); recvfrom/sendto faults are not enumerated yet",
+     "errno sets follow the statement (other accept4 errors shut the engine down by design and are exercised under C06)",
      "fault injection at the system-call boundary (shim plan) + lifecycle/stream/ledger monitors", "DESIGN.md §3 C18", assumptions=ENGINE_ASSUME)
 
 prop("C19", "exploration",
